@@ -15,7 +15,13 @@ called with a fault armed in the scripted terminal (KeyboardInterrupt while the 
 awaited, OSError from writing the request, termios.error from tcsetattr — all raised
 from inside the real `query_terminal`).  A quarter of the generated histories is built
 around the pattern [successful get; resize in cells with no pixel size from the ioctl;
-aborted get; get again at the same size]."""
+aborted get; get again at the same size].
+
+A RESIZE MAY LAND WHILE A MEMOISED BODY RUNS: the op TSR c r x y is the
+`terminal_size_cached` probe called with a resize armed in its body (the body reads the
+terminal, then the terminal becomes (c, r, x, y), then the body returns).  The value
+computed for the old size must not be served for the new one: every 8th history is built
+around [probe; probe with a resize to another size landing in its body; probe]."""
 from __future__ import annotations
 
 import copy
@@ -126,6 +132,50 @@ def gen_abort_case(rng, maxlen=14):
     return {"env": env, "t0": a, "ops": ops}
 
 
+def gen_tsr_case(rng, maxlen=14):
+    """[probe; probe with a resize to another size (in cells AND pixels) landing in its body;
+    probe], embedded in a random history"""
+    env = gen_env(rng)
+    a = gen_size(rng)
+    while True:
+        bsz = gen_size(rng)
+        if (bsz[0], bsz[1]) != (a[0], a[1]) and (bsz[2], bsz[3]) != (a[2], a[3]):
+            break
+    pool = [a, bsz] + [gen_size(rng) for _ in range(rng.randint(0, 2))]
+    core_ops = ([["TS"]] if rng.random() < 0.6 else []) + [["TSR"] + bsz, ["TS"]]
+    u = rng.random()
+    if u < 0.35:                          # back to the first size while the body runs again
+        core_ops += [["TSR"] + a, ["TS"]]
+    elif u < 0.5:                         # two resizes in a row landing in bodies (the second call computes)
+        core_ops = core_ops[:-1] + [["TSR"] + list(rng.choice(pool)), ["TS"]]
+    elif u < 0.6:                         # a plain resize before the next call
+        core_ops = core_ops[:-1] + [["R"] + list(rng.choice(pool)), ["TS"]]
+
+    def filler(n):
+        out = []
+        for _ in range(n):
+            v = rng.random()
+            if v < 0.15:
+                out.append(["R"] + list(rng.choice(pool)))
+            elif v < 0.30:
+                out.append([rng.choice(["ES", "DS", "EQ", "DQ"])])
+            elif v < 0.36:
+                out.append(["SR", rng.choice(["F", "D", [3, 4]])])
+            elif v < 0.50:
+                out.append(["TSR"] + list(rng.choice(pool)))
+            else:
+                g = rng.choice(["CS", "CR", "CO", "NV", "K", "TS", "TS", "TS"])
+                out.append([g, rng.randrange(3)] if g == "CO" else [g])
+        return out
+
+    room = max(0, maxlen - len(core_ops))
+    n1 = rng.randint(0, min(3, room))
+    k = len(core_ops) - 1
+    mid = filler(1) if rng.random() < 0.12 else []   # something between the resized call and the next one
+    ops = filler(n1) + core_ops[:k] + mid + core_ops[k:] + filler(rng.randint(0, max(0, room - n1)))
+    return {"env": env, "t0": a, "ops": ops}
+
+
 def gen_case(rng, maxlen=20):
     env = gen_env(rng)
     pool = [gen_size(rng) for _ in range(rng.randint(1, 4))]
@@ -152,6 +202,8 @@ def gen_case(rng, maxlen=20):
         else:
             g = rng.choices(["CS", "CR", "CO", "NV", "K", "TS"], w)[0]
             o = [g, rng.randrange(3)] if g == "CO" else [g]
+            if g == "TS" and rng.random() < 0.3:   # a resize lands while the probe's body runs
+                o = ["TSR"] + list(rng.choice(pool) if rng.random() < 0.85 else gen_size(rng))
             ops.append(arm(rng, o) if g in ABORTS and rng.random() < 0.14 else o)
     return {"env": env, "t0": list(rng.choice(pool)), "ops": ops}
 
@@ -209,6 +261,19 @@ CORPUS = [
     {"env": E1, "t0": [80, 24, 800, 480],
      "ops": [["DQ"], ["CSA", "kbd"], ["COA", 1, "kbd"], ["EQ"], ["CSA", "kbd"], ["CS"], ["COA", 1, "oserr"], ["CO", 1]]},
     {"env": dict(E0, tty=0), "t0": [80, 24, 800, 480], "ops": [["CSA", "kbd"], ["NVA", "kbd"], ["COA", 0, "oserr"], ["CRA", "kbd"]]},
+    # A RESIZE LANDS WHILE THE terminal_size_cached BODY RUNS: the value computed for the old size is not served
+    # for the new one; when the entry serves the call the body does not run (and nothing is resized)
+    {"env": E0, "t0": [80, 24, 800, 480], "ops": [["TSR", 100, 30, 900, 750], ["TS"]]},
+    {"env": E0, "t0": [80, 24, 800, 480],
+     "ops": [["TS"], ["TSR", 100, 30, 900, 750], ["TS"], ["R", 100, 30, 900, 750], ["TSR", 80, 24, 800, 480], ["TS"], ["TS"],
+             ["TSR", 100, 30, 900, 750], ["TS"], ["CS"]]},
+    # ... twice in a row; columns only / rows only; back and forth; with no terminal
+    {"env": E1, "t0": [80, 24, 800, 480],
+     "ops": [["TSR", 100, 30, 900, 750], ["TSR", 132, 43, 1320, 860], ["TS"], ["TSR", 132, 24, 1320, 480], ["TS"],
+             ["TSR", 80, 24, 800, 480], ["TSR", 132, 24, 1320, 480], ["TS"], ["TS"]]},
+    {"env": dict(E0, tty=0), "t0": [80, 24, 800, 480], "ops": [["TS"], ["R", 1, 1, 8, 16], ["TSR", 80, 24, 800, 480], ["TS"]]},
+    # ... a pixel-only resize landing in the body breaks the side condition (only the model is compared)
+    {"env": E0, "t0": [80, 24, 800, 480], "ops": [["R", 100, 30, 900, 750], ["TSR", 100, 30, 1000, 600], ["TS"]]},
 ]
 
 
@@ -235,6 +300,8 @@ def op_term(o):
         m = o[1]
         return "SetRatio " + ("RAutoFixed" if m == "F" else "RAutoDynamic" if m == "D" else
                               "(RFloat %s %s)" % (core.z(m[0]), core.z(m[1])))
+    if k == "TSR":
+        return "GetTscResize " + tsize(o[1:5])
     if k == "CO":
         return "GetColors %d%%nat" % o[1]
     if k == "COA":
@@ -302,6 +369,8 @@ def describe(c):
     def one(o):
         if o[0] == "R":
             return "resize(%dx%d,%dx%dpx)" % tuple(o[1:5])
+        if o[0] == "TSR":
+            return "size_cached_probe!resize(%dx%d,%dx%dpx)-during-body" % tuple(o[1:5])
         if o[0] == "SR":
             return "set_cell_ratio(%s)" % ({"F": "FIXED", "D": "DYNAMIC"}.get(o[1]) if isinstance(o[1], str) else "%d/%d" % tuple(o[1]))
         if o[0] in ("CSA", "CRA", "COA", "NVA"):
@@ -360,14 +429,15 @@ def run(ctx):
         cases = [ctx.replay["replay"]["case"]]
     else:
         n = 420 if ctx.quick else 6000
-        cases = copy.deepcopy(CORPUS) + [gen_abort_case(rng) if i % 4 == 1 else gen_case(rng, 20 if i % 4 else 8)
-                                         for i in range(n)]
+        cases = copy.deepcopy(CORPUS) + [gen_abort_case(rng) if i % 4 == 1 else gen_tsr_case(rng) if i % 8 == 3
+                                         else gen_case(rng, 20 if i % 4 else 8) for i in range(n)]
     codes, side, errors, impl = evaluate(cases)
     mismatches, failures = [], []
     hist = {"ops_len": {}, "op_kinds": {}, "caps": {}, "side_condition_holds": sum(side),
             "side_condition_broken_on_purpose": len(cases) - sum(side), "none_cell_size_answers": 0,
             "cache_hits": 0, "recomputations": 0, "armed_calls_raised": 0, "armed_calls_returned": 0,
-            "get_after_aborted_get_same_size": 0}
+            "get_after_aborted_get_same_size": 0, "probe_resized_in_body": 0, "probe_armed_resize_not_run(hit)": 0,
+            "probe_call_right_after_resize_in_body": 0, "probe_call_after_resize_in_body_other_px": 0}
     distinct = set()
     for c, r in zip(cases, impl):
         L = len(c["ops"])
@@ -375,11 +445,22 @@ def run(ctx):
         e = c["env"]
         key = "tty%d io%d xc%d xa%d" % (e["tty"], e["io"], e["xc"], e["xa"])
         hist["caps"][key] = hist["caps"].get(key, 0) + 1
-        prev = 0
+        prev = prev_ts = 0
         kinds = [ABORTED.get(o[0], o[0]) for o in c["ops"]]
         pending_abort = False
+        in_body = None      # the pixel size the last probe body saw when a resize landed in it
         for o, row in zip(c["ops"], r["rows"]):
             hist["op_kinds"][o[0]] = hist["op_kinds"].get(o[0], 0) + 1
+            if o[0] in ("TS", "TSR") and in_body is not None:
+                hist["probe_call_right_after_resize_in_body"] += 1
+                hist["probe_call_after_resize_in_body_other_px"] += row["fc"] != in_body
+            if o[0] == "TSR":
+                ran = row["n"][3] != prev_ts
+                hist["probe_resized_in_body" if ran else "probe_armed_resize_not_run(hit)"] += 1
+                in_body = row["obs"] if ran else None
+            else:
+                in_body = None
+            prev_ts = row["n"][3]
             if o[0] in ABORTED:
                 hist["armed_calls_raised" if row["obs"] == [-1] else "armed_calls_returned"] += 1
             if o[0] in ("CSA", "CRA") and row["obs"] == [-1]:
@@ -393,7 +474,7 @@ def run(ctx):
                 hist["none_cell_size_answers"] += row["obs"] == [0]
                 hist["cache_hits" if row["n"][0] == prev else "recomputations"] += 1
             prev = row["n"][0]
-        getters = sum(k in ("CS", "CR", "CO", "NV", "K", "TS") for k in kinds)
+        getters = sum(k in ("CS", "CR", "CO", "NV", "K", "TS", "TSR") for k in kinds)
         changes = sum(k in ("R", "ES", "DS", "EQ", "DQ", "SR") for k in kinds)
         if getters >= 2 and changes >= 1 and e["tty"]:
             distinct.add(core.sig(c))
@@ -442,14 +523,15 @@ def run(ctx):
         "rule": "corpus + random histories (1-20 ops) over resize / swap toggles / query toggles / set_cell_ratio "
                 "(FIXED, DYNAMIC, floats incl. non-positive) / get_cell_size / get_cell_ratio / get_fg_bg_colors "
                 "(three argument tuples) / get_terminal_name_version / TextImage._is_on_kitty / a terminal_size_cached "
-                "probe / the same getters with a fault armed inside query_terminal (KeyboardInterrupt, OSError, "
+                "probe / the probe with a resize landing WHILE ITS BODY RUNS (every 8th history is built around [probe; probe "
+                "with a resize to another size in its body; probe]) / the same getters with a fault armed inside query_terminal (KeyboardInterrupt, OSError, "
                 "termios.error: ABORTED computations; every 4th history is built around [get; resize in cells without "
                 "ioctl pixel size; aborted get; get again]), on scripted terminals (ioctl pixel size or not, XTWINOPS cell / text-area replies or not, "
                 "XTVERSION or TERM_PROGRAM, colours or not, no tty).  After every op: return value + body counters; "
                 "for every getter additionally the value of a twin package copy run from empty caches.  "
                 "Non-trivial: a tty, >= 2 getter calls and >= 1 state change; distinct by full case hash.  "
                 "~15% of histories break the side condition on purpose (model compared, property not judged).",
-        "samples": [describe(c) for c in cases[:2] + cases[11:12] + cases[len(CORPUS):len(CORPUS) + 3]],
+        "samples": [describe(c) for c in cases[:2] + cases[11:12] + cases[len(CORPUS) - 4:len(CORPUS) - 3] + cases[len(CORPUS):len(CORPUS) + 3]],
         "histogram": hist,
         "mismatches": mismatches,
         "failures": failures,
@@ -460,6 +542,9 @@ def run(ctx):
             "terminal name/version, colours and capabilities do not change during a session (they are parameters of a history)",
             "the body of a memoised function is atomic with respect to its own lock and does not call the same memoised function",
             "AutoCellRatio.is_supported is sticky by documentation and modelled as such (outside the property)",
+            "a resize during a memoised computation lands after the body has looked at the terminal (the body's value is "
+            "the one for the size the wrapper read before it); a body that reads the terminal again after the resize is "
+            "not modelled",
             "aborted computations: the exception is raised inside query_terminal (request write, tcsetattr, or the wait "
             "for the reply); an abort at other points (inside the ioctl, between Python statements by an asynchronous "
             "signal) is not modelled",
@@ -471,6 +556,8 @@ def run(ctx):
             "counters are put back when the call raises (they count COMPLETED computations)",
             "fault injection: the scripted terminal raises KeyboardInterrupt from the timed read, OSError from the write, "
             "termios.error from tcsetattr(TCSAFLUSH), once per armed call",
+            "resize during a body: the terminal_size_cached probe's body itself sets the scripted terminal to the new "
+            "size after reading it (single-threaded, deterministic stand-in for a SIGWINCH-time change during a slow body)",
             "thread races use real threads (outcome is schedule-independent on correct code); CPython's RLock is trusted",
         ],
         "extra": extra,
